@@ -141,6 +141,10 @@ def generate(rng, idx, tier, variant):
         ms = S.gen_spec(rng, 'solver', tier)
         ms['span'] = sp
         ms['lags'] = ms['leads'] = 0
+        if rng.random() < 0.3:
+            # a model with lags / leads, asked for any period of the span - also one it cannot be solved for: the linker
+            # refuses where the model refuses
+            ms['lags'], ms['leads'] = rng.choice([(1, 0), (0, 1), (2, 1), (1, 1)])
         ms['init'] = {nm: [rng.choice(S.DYADS) for _ in range(n)] for nm in ms['endo'] + ms['exo']}
         opts = S.gen_opts(rng, False)
         opts['errors'] = 'raise'
@@ -646,6 +650,8 @@ def do_twin(fsic, spec, op, ctx, chk):
     ob = run(bare)
     ol = run(LK)
     ctx.probe('linker-of-one-twin')
+    if not ms['lags'] <= t < n - ms['leads']:
+        ctx.probe('linker-of-one-twin:period-the-model-cannot-be-solved-for')
     pb, pi = ref_solver.snapshot(bare), ref_solver.snapshot(inner)
     ctx.count('passes', len(probes.get_ctl(bare).log) + len(probes.get_ctl(inner).log))
     ctx.count('steps', len(probes.get_ctl(bare).log) + len(probes.get_ctl(inner).log))
